@@ -3,7 +3,7 @@
    (Model/{Tx,Ledger,Sfl,DeltaList,App}.v).  Proofs: Proofs/SummaryProps.v. *)
 From Coq Require Import List NArith ZArith QArith Qcanon Bool.
 From ACB Require Import Base.Outcome Base.QcExtra Base.Arith Model.Tx Model.Ledger Model.Sfl
-     Model.DeltaList Model.App Model.Summary Proofs.SummaryProps.
+     Model.DeltaList Model.App Model.Summary Model.SummaryObs Proofs.SummaryProps.
 From Coq Require Import Sorted.
 From ACB Require Import Proofs.C15Full Proofs.SortLayout Proofs.C10Scan Proofs.C10Sim Proofs.C10Roundtrip
      Proofs.C10Ranges Proofs.C10Cut Proofs.C10Window Proofs.C10Classes.
